@@ -581,6 +581,13 @@ skiplist_iter_next(qb_map_iter_t * i, void **value)
 static void
 skiplist_iter_free(qb_map_iter_t * i)
 {
+	struct skiplist_iter *si = (struct skiplist_iter *)i;
+
+	if (si->n) {
+		/* abandoned before the end: drop the reference
+		 * held on the current node */
+		skiplist_node_deref(si->n, (struct skiplist *)i->m);
+	}
 	free(i);
 }
 
